@@ -633,6 +633,7 @@ typedef struct {
 
 /* Lexer */
 Token *tokenize(const char *source, int *token_count);
+char *nl_string_literal_value(const char *raw);  /* value of a string literal's source text (escapes replaced); caller frees */
 void free_tokens(Token *tokens, int count);
 const char *token_type_name(TokenType type);
 
